@@ -12,12 +12,12 @@ pub mod c04;
 pub mod c05;
 pub mod c06;
 pub mod c07;
-// TMP pub mod c08;
-// TMP pub mod c09;
-// TMP pub mod c10;
-// TMP pub mod c11;
-// TMP pub mod c12;
-// TMP pub mod c13;
+pub mod c08;
+pub mod c09;
+pub mod c10;
+pub mod c11;
+pub mod c12;
+pub mod c13;
 pub mod c15;
 // TMP pub mod c16;
 // TMP pub mod c18;
@@ -34,12 +34,12 @@ pub fn run(id: &str, ctx: &Ctx) -> Option<Report> {
         "C05" => c05::run(ctx, &mut rep),
         "C06" => c06::run(ctx, &mut rep),
         "C07" => c07::run(ctx, &mut rep),
-// TMP         "C08" => c08::run(ctx, &mut rep),
-// TMP         "C09" => c09::run(ctx, &mut rep),
-// TMP         "C10" => c10::run(ctx, &mut rep),
-// TMP         "C11" => c11::run(ctx, &mut rep),
-// TMP         "C12" => c12::run(ctx, &mut rep),
-// TMP         "C13" => c13::run(ctx, &mut rep),
+        "C08" => c08::run(ctx, &mut rep),
+        "C09" => c09::run(ctx, &mut rep),
+        "C10" => c10::run(ctx, &mut rep),
+        "C11" => c11::run(ctx, &mut rep),
+        "C12" => c12::run(ctx, &mut rep),
+        "C13" => c13::run(ctx, &mut rep),
         "C15" => c15::run(ctx, &mut rep),
 // TMP         "C16" => c16::run(ctx, &mut rep),
 // TMP         "C18" => c18::run(ctx, &mut rep),
@@ -58,12 +58,12 @@ pub fn replay(id: &str, ctx: &Ctx, sub: &str, case: &Value) -> Option<CheckResul
         "C05" => c05::replay(ctx, sub, case),
         "C06" => c06::replay(ctx, sub, case),
         "C07" => c07::replay(ctx, sub, case),
-// TMP         "C08" => c08::replay(ctx, sub, case),
-// TMP         "C09" => c09::replay(ctx, sub, case),
-// TMP         "C10" => c10::replay(ctx, sub, case),
-// TMP         "C11" => c11::replay(ctx, sub, case),
-// TMP         "C12" => c12::replay(ctx, sub, case),
-// TMP         "C13" => c13::replay(ctx, sub, case),
+        "C08" => c08::replay(ctx, sub, case),
+        "C09" => c09::replay(ctx, sub, case),
+        "C10" => c10::replay(ctx, sub, case),
+        "C11" => c11::replay(ctx, sub, case),
+        "C12" => c12::replay(ctx, sub, case),
+        "C13" => c13::replay(ctx, sub, case),
         "C15" => c15::replay(ctx, sub, case),
 // TMP         "C16" => c16::replay(ctx, sub, case),
 // TMP         "C18" => c18::replay(ctx, sub, case),
